@@ -46,6 +46,12 @@ impl<A: AcceptableMasterList, C: Clock, F: Filter, R: Rng, S: PtpInstanceStateMu
                     None
                 };
                 if let Some(tlv) = &path_trace_tlv {
+                    if tlv.value.len() / 8 > state.path_trace_ds.list.capacity() {
+                        // A general message may be larger than MAX_DATA_LEN, so the path can
+                        // be longer than what we can store (or ever forward): discard it.
+                        log::warn!("Path trace list too long, ignoring announce");
+                        return true;
+                    }
                     let clock_identity = state.default_ds.clock_identity;
                     if tlv.value.chunks_exact(8).any(|ci| ci == clock_identity.0) {
                         log::warn!("Clock loop detected");
@@ -69,7 +75,7 @@ impl<A: AcceptableMasterList, C: Clock, F: Filter, R: Rng, S: PtpInstanceStateMu
                 *time_properties_ds = announce.time_properties();
 
                 if let Some(tlv) = path_trace_tlv {
-                    // Cannot panic as `list` is large enough to contain up to a whole message
+                    // Cannot panic: the length was checked against the capacity above
                     path_trace_ds.list = tlv
                         .value
                         .chunks_exact(8)
